@@ -48,6 +48,18 @@ CHECKS = {
         technique="TLA+ spec + TLC exhaustive enumeration, behaviour replay into real code, TLC trace validation",
         design_ref="DESIGN.md section 5 C14",
     ),
+    "C09": dict(
+        level="model_checking",
+        text=("SampleTables.tla defines every query from the naive per-sample expansion of the run-length tables (Prop) and "
+              "models the library's cached-column/binary-search algorithms (Impl); TLC enumerates ALL consistent table sets up "
+              "to N samples per query family, checks Impl = Prop, and exports the expected answer of every query for every "
+              "sample number, interval and time; the tables are materialised by an independent box writer, decoded by the real "
+              "decoders (box, SR, file, lazy, API-built) and every query result is compared."),
+        note=("Trusted: TLC, Go replayer and its box writer. Table values are small; 32-bit overflow of accumulated times is not "
+              "explored. t = total duration without zero-length last sample is not pinned for GetSampleNrAtTime."),
+        technique="TLA+ spec + TLC exhaustive enumeration of tables and queries, behaviour replay into real code",
+        design_ref="DESIGN.md section 5 C09",
+    ),
 }
 
 PENDING_REASON = "check not built yet in this revision (planned in DESIGN.md section 5); not claimed until its machinery exists"
